@@ -87,7 +87,8 @@ pub fn gen_hungarian(r: &mut Rng, tier: &str) -> Vec<Case> {
                 gen::gen_matrix(r, size, adm)
             };
             // the memory layout is not part of the matrix: every fourth case is handed over column-major
-            Case { stream: "hungarian", data: json!({"m": m.to_json(), "layout": if i % 4 == 1 { "f" } else { "c" }, "huge": huge}) }
+            // every seventh case: the routine has been called before on the same buffer with other contents
+            Case { stream: "hungarian", data: json!({"m": m.to_json(), "layout": if i % 4 == 1 { "f" } else { "c" }, "huge": huge, "warm": i % 7 == 3}) }
         })
         .collect()
 }
@@ -149,6 +150,15 @@ pub fn run_hungarian(data: &Value) -> Vec<Line> {
         ndarray::Array1::from_vec(m.skipx.clone()),
         ndarray::Array1::from_vec(m.skipy.clone()),
     );
+    let mut w = w;
+    if data["warm"].as_bool().unwrap_or(false) {
+        // the result of a call depends on its arguments only: an earlier call on the same thread and the SAME
+        // buffer (same address, same shape) with smaller weights must leave no trace
+        let real = w.clone();
+        w.mapv_inplace(|v| v / 3);
+        let _ = catch(|| verif::hungarian_algorithm(&w, &d, &ma, &sx, &sy));
+        w.assign(&real);
+    }
     let res = catch(|| verif::hungarian_algorithm(&w, &d, &ma, &sx, &sy));
     let huge = data["huge"].as_bool().unwrap_or(false);
     let text = m.to_text();
